@@ -21,7 +21,7 @@ func main() {
 	if run.Thorough() {
 		deadline = time.Now().Add(12 * time.Minute)
 		maxCap = 5
-		mapCfg = [][3]int{{3, 2, 3}, {4, 1, 2}}
+		mapCfg = [][3]int{{3, 2, 2}, {2, 2, 3}, {4, 1, 2}}
 	}
 	var samples ev.Samples
 	states, trans := 0, int64(0)
